@@ -258,23 +258,33 @@ def _sweep(case, rec, rng):
     gen.nr_eval(ks, dm)      # builds the lazily constructed generators
     inp = _stage_inputs(ks, dm, nspin, model)
     ref = _stage_outputs(gen, ks, dm, nspin, model, state, inp)
-    # conditioning of the end-to-end path: its inputs are produced by pyscf's threaded code (ulp-level differences
-    # between team sizes), so the e2e comparison uses max(TOL, 8 x response of the 1-thread result to a 1-ulp change
-    # of the density matrix); stage-level comparisons get bit-identical inputs and keep TOL
-    n_, e_, v_ = gen.nr_eval(ks, dm * (1.0 + 2.0 ** -52))
-    floor = {}
-    for name, b in (("nelec", n_), ("excsum", e_), ("vmat", v_)):
-        a0 = np.asarray(ref["e2e"][name], dtype=float)
-        sc = max(float(np.max(np.abs(a0))), 1e-12)
-        floor[name] = float(np.max(np.abs(np.asarray(b, dtype=float) - a0))) / sc
-    rec.note("e2e_ulp_response", floor)
-    # force-like outputs vanish by symmetry for one-atom systems (pure rounding noise, 1e-18): their scale is at least
-    # 1e-3 of the XC matrix of the same calculation
+    # conditioning of the end-to-end and nuclear-gradient paths: their inputs (rho on the grid) are produced by pyscf's
+    # threaded code inside the call (ulp-level differences between team sizes), so these two stages use
+    # max(TOL, 8 x largest response of the 1-thread result to three 1-ulp perturbations of the density matrix); the
+    # stage-level comparisons get bit-identical inputs and keep TOL
     gfloor = 1e-3 * max(float(np.max(np.abs(np.asarray(ref["e2e"]["vmat"], dtype=float)))), 1e-9)
     rec.note("grad_stage_scale_floor", gfloor)
+    prng = np.random.default_rng(state + 1)
+    perts = [dm * (1.0 + 2.0 ** -52), dm * (1.0 - 2.0 ** -53), dm + np.spacing(dm) * prng.integers(-1, 2, size=np.shape(dm))]
+    floors = {"e2e": {}, "grad": {}}
+    for dmp in perts:
+        n_, e_, v_ = gen.nr_eval(ks, dmp)
+        resp = {"e2e": {"nelec": n_, "excsum": e_, "vmat": v_}}
+        if "grad" in ref:
+            resp["grad"] = _grad_stage(ks, dmp, nspin)
+        for st, outs in resp.items():
+            for name, b in outs.items():
+                a0 = np.asarray(ref[st][name], dtype=float)
+                sc = max(float(np.max(np.abs(a0))), gfloor if st == "grad" else 1e-12)
+                d = float(np.max(np.abs(np.asarray(b, dtype=float) - a0))) / sc
+                floors[st][name] = max(floors[st].get(name, 0.0), d)
+    rec.note("ulp_response[e2e]", floors["e2e"])
+    rec.note("ulp_response[grad]", floors["grad"])
+    # force-like outputs vanish by symmetry for one-atom systems (pure rounding noise, 1e-18): their scale is at least
+    # 1e-3 of the XC matrix of the same calculation (gfloor)
 
     def cmp(st, T, r, o, kind):
-        _cmp(rec, case, st, T, r, o, kind, floor=floor if st == "e2e" else None, absfloor=gfloor if st == "grad" else 1e-12)
+        _cmp(rec, case, st, T, r, o, kind, floor=floors.get(st), absfloor=gfloor if st == "grad" else 1e-12)
 
     calls_before = dict(boot.counters())
     teams = case["teams"]
@@ -378,6 +388,28 @@ def _gradterms_direct(rng, natm, ngrids):
     return out
 
 
+def _flapl_direct(rng, molname, basis, n1, npts):
+    """Fractional-Laplacian AO values and features: the contraction callbacks of frac_lapl.c run INSIDE pyscf's own OpenMP
+    loop over (grid block, shell) tiles, so they are reachable only through this differential sweep (no TSan edges)."""
+    from ciderpress.dft.plans import FracLaplPlan
+    from ciderpress.dft.settings import FracLaplSettings
+    from ciderpress.pyscf.analyzers import RHFAnalyzer
+    from ciderpress.pyscf.descriptors import get_descriptors
+    from ciderpress.pyscf.frac_lapl import eval_kao
+    from vlib import gen
+    mol = gen.make_mol(molname, basis, rng, jitter=0.03)
+    coords = np.ascontiguousarray(rng.normal(size=(npts, 3)) * 1.5)
+    slist = [-0.5, 0.5, 0.25][: max(n1, 2) + 1] if n1 < 3 else [-0.5, 0.5, 0.25]
+    out = {"kao": np.ascontiguousarray(eval_kao(slist, mol, coords=coords, n1=n1))}
+    nd1 = min(n1, 2)
+    settings = FracLaplSettings(slist, len(slist), min(1, len(slist)), [(-1, 0)] if len(slist) else [], nd1=nd1,
+                                ld_dots=[(-1, 0)] if nd1 else [], ndd=min(nd1, 1))
+    dm = gen.psd_dm(mol, rng, 1)
+    ana = RHFAnalyzer(mol, dm, grids_level=0)
+    out["desc"] = np.asarray(get_descriptors(ana, settings, orbs=None))
+    return out
+
+
 def _direct(case, rec, rng):
     from vlib import boot
     raw = boot.load_library("libnumint")
@@ -394,6 +426,10 @@ def _direct(case, rec, rng):
     rec.tag("fft", "dims=%s nt=%d r2c=%s inplace=%s batch_first=%s" % (dims, nt, r2c, inplace, bf))
     rec.tag("evaluator_samples", nsamp)
 
+    fl_mol, fl_basis = [("H2O", "def2-svp"), ("HF", "6-31g"), ("LiH", "def2-svp"), ("NH3", "6-31g")][int(rng.integers(4))]
+    fl_n1 = int(rng.choice([0, 1, 2, 3], p=[0.15, 0.25, 0.35, 0.25]))
+    fl_npts = int(rng.choice([57, 300, 2001]))
+    rec.tag("frac_lapl", "%s/%s n1=%d npts=%d" % (fl_mol, fl_basis, fl_n1, fl_npts))
     natm = int(rng.choice([1, 2, 5]))
     ngt = int(rng.choice([1, 3, 17, 1000]))
     rec.tag("gradterms", "natm=%d ngrids=%d" % (natm, ngt))
@@ -401,7 +437,8 @@ def _direct(case, rec, rng):
     def run():
         r = np.random.default_rng(state)
         return {"numint": _numint_direct(raw, r, ng, nvv), "fft": _fft_direct(r, dims, nt, r2c, inplace, bf),
-                "evaluators": _evaluators_direct(r, nsamp), "gradterms": _gradterms_direct(r, natm, ngt)}
+                "evaluators": _evaluators_direct(r, nsamp), "gradterms": _gradterms_direct(r, natm, ngt),
+                "flapl": _flapl_direct(r, fl_mol, fl_basis, fl_n1, fl_npts)}
     set_threads(1)
     ref = run()
     # the sequential variants are the reference model of the parallel one
